@@ -112,6 +112,10 @@ def facts_dir(repo=None, stage=1, target=None):
     with open(os.path.join(CACHE, lockname), "w") as lk:
         fcntl.flock(lk, fcntl.LOCK_EX)
         if os.path.exists(okfile) and all(os.path.exists(w) for w in want):
+            try:
+                os.utime(d)          # a cache entry in use is not an old one (pruning goes by mtime)
+            except OSError:
+                pass
             return d
         failfile = os.path.join(d, "build-failed%s.txt" % suffix)
         if os.path.exists(failfile):
@@ -134,7 +138,7 @@ def facts_dir(repo=None, stage=1, target=None):
     return d
 
 
-def _prune_old_facts(keep, max_keep=40, min_age_s=1800):
+def _prune_old_facts(keep, max_keep=420, min_age_s=3600):
     root = os.path.join(CACHE, "facts")
     now = time.time()
     try:
